@@ -480,7 +480,6 @@ class Prop(Check):
     ID = "C01"
     LEAN_MODULE = "TextxVerif.Props.C01"
     THEOREMS = ["Tx.C01_expr_partial", "Tx.C01_expr_accepts_iff", "Tx.C01_verdict_fuel_independent",
-                "Tx.Sim.sim", "Tx.Sim.emit_repr",
                 "Tx.C01_full_false_none_alternative", "Tx.C01_full_false_empty_list_alternative",
                 "Tx.C01_full_false_falsy_repetition", "Tx.C01_full_false_separator_kept",
                 "Tx.C01_full_false_comment_cache", "Tx.C01_full_false_ws_restore"]
@@ -580,6 +579,7 @@ class Prop(Check):
 
     def compare(self, case, obs, out):
         self._outs[canon(case)] = out
+        self._texts[canon(case)] = obs.get("texts", [])
         if "compiled" not in out:
             return f"model rejected the request: {str(out)[:200]}"
         d = self.compare_compile(case, obs, out["compiled"])
@@ -625,10 +625,16 @@ class Prop(Check):
         return None
 
     _outs = {}
+    _texts = {}
 
     def lean_out(self, case, obs):
         """Answer of the Lean driver for this case (cached by compare(); computed on demand during shrinking)."""
         key = canon(case)
+        parent = self._outs.get(case.get("_from"))
+        if key not in self._outs and parent and "loads" in parent and "texts" in obs:
+            ptexts = self._texts.get(case["_from"], [])
+            if all(t in ptexts for t in obs["texts"]):
+                self._outs[key] = dict(parent, loads=[parent["loads"][ptexts.index(t)] for t in obs["texts"]])
         if key not in self._outs:
             req = self.model_req(case, obs)
             self._outs[key] = run_driver(self.DRIVER, [req])[0] if req is not None else None
@@ -684,6 +690,17 @@ class Prop(Check):
                 return None
             found.append(hit)
         return KF[found[0]] if found else None
+
+    def shrink(self, case):
+        """one text at a time, shortest first (answered from the cached Lean output of the full case: no driver start)"""
+        texts = case["texts"]
+        if len(texts) > 1:
+            for t in sorted(texts, key=len):
+                yield dict(case, texts=[t], keep=1, _from=canon({k: v for k, v in case.items() if k != "_from"}))
+
+    def extra_search(self, rng, tier, broken):
+        """more cases when an obligation / the correspondence broke without a failing input in the main run"""
+        return list(self.gen(rng, 120, tier))
 
     def nontrivial(self, case, obs):
         """accepted with >= 2 objects, or rejected after at least one token"""
